@@ -21,7 +21,7 @@ import traceback
 
 from hypothesis import Phase, given, seed as hseed, strategies as st
 
-from vlib.runner import VERIF, Result, hyp_settings
+from vlib.runner import VERIF, Result, hyp_settings, HarnessError
 
 ID = "C11"
 LEVEL = "exploration"
@@ -119,13 +119,35 @@ def module_fingerprint():
     import Reduino.transpile.emitter as E
     import Reduino.transpile.parser as P
 
+    import pickle
+    import types
+    import warnings
+
+    def value(v):
+        if isinstance(v, (set, frozenset)):
+            return repr(sorted(map(repr, v)))
+        r = repr(v)
+        if " at 0x" not in r:
+            return r  # containers, numbers, strings, compiled patterns, itertools.count(n), deque([...]), Counter({...}) ...
+        try:
+            with warnings.catch_warnings():
+                warnings.simplefilter("ignore")
+                return repr(pickle.dumps(v))
+        except Exception:
+            pass
+        try:
+            return repr(sorted((k, repr(x)) for k, x in vars(v).items()))
+        except TypeError:
+            return "opaque"
+
     fp = []
     for mod in (P, E):
         for k, v in sorted(vars(mod).items()):
             if k.startswith("__") or k == "_VERIF_IGNORED":
                 continue
-            if isinstance(v, (dict, list, set, frozenset, tuple, str, int, float)):
-                fp.append((mod.__name__, k, repr(v) if not isinstance(v, (set, frozenset)) else repr(sorted(map(repr, v)))))
+            if isinstance(v, (types.FunctionType, types.BuiltinFunctionType, types.ModuleType, type)) or callable(v):
+                continue
+            fp.append((mod.__name__, k, value(v)))
     return hash(tuple(fp))
 
 
@@ -225,7 +247,8 @@ def supervise(cases, canary_dir):
                 for j in range(i, n):
                     used = resource.getrusage(resource.RUSAGE_SELF)
                     cpu = int(used.ru_utime + used.ru_stime)
-                    resource.setrlimit(resource.RLIMIT_CPU, (cpu + CPU_PER_CASE, cpu + CPU_PER_CASE + 5))
+                    # soft limit only: a hard limit can never be raised again, so a per-case hard limit would end the child after the first CPU second
+                    resource.setrlimit(resource.RLIMIT_CPU, (cpu + CPU_PER_CASE, resource.RLIM_INFINITY))
                     out.write(f"START {j}\n")
                     res = run_case(cases[j], os.path.join(canary_dir, "canary"))
                     out.write("END " + json.dumps([j, res]) + "\n")
@@ -351,7 +374,9 @@ def run_shard(name, seed, tier, what, n):
         shutil.rmtree(cdir, ignore_errors=True)
     found = {}
     for i, text in enumerate(cases):
-        res = results.get(i, {"status": "lost", "reached": False})
+        if i not in results:
+            raise HarnessError(f"C11 supervisor lost case {i} of {len(cases)} (child ended without reporting it)")
+        res = results[i]
         r.count(f"{what}:{res['status']}")
         r.case({"text": text} if len(r.samples) < 1 else {"h": hash(text) & 0xffffffff}, bool(res.get("reached")))
         if res["status"] == "FAIL":
@@ -385,7 +410,7 @@ def minimise(text, bucket, max_rounds=40):
 
 
 def run_atheris(name, seed, seconds, r):
-    """Coverage-guided byte noise; runs tools/atheris_target.py as a subprocess for a fixed number of seconds."""
+    """Coverage-guided byte noise; runs tools/atheris_target.py as a subprocess for a fixed number of executions (800 per budgeted second; wall-clock cap 4x)."""
     import subprocess
 
     deps = os.path.join(VERIF, ".deps")
@@ -404,8 +429,8 @@ def run_atheris(name, seed, seconds, r):
                 with open(os.path.join(corpus, f"s{k}"), "w") as f:
                     f.write(c)
         out = os.path.join(work, "findings.jsonl")
-        cmd = ["/venv/bin/python", tgt, corpus, f"-max_total_time={seconds}", f"-seed={seed % (2**31 - 1) + 1}", "-max_len=400", "-timeout=20", f"-artifact_prefix={work}/", "-print_final_stats=1"]
-        p = subprocess.run(cmd, env=dict(env, C11_FINDINGS=out), capture_output=True, text=True, timeout=seconds + 120)
+        cmd = ["/venv/bin/python", tgt, corpus, f"-runs={seconds * 800}", f"-max_total_time={seconds * 4}", f"-seed={seed % (2**31 - 1) + 1}", "-max_len=400", "-timeout=20", f"-artifact_prefix={work}/", "-print_final_stats=1"]
+        p = subprocess.run(cmd, env=dict(env, C11_FINDINGS=out), capture_output=True, text=True, timeout=seconds * 4 + 120)
         execs = 0
         for ln in p.stderr.splitlines():
             if "stat::number_of_executed_units" in ln:
